@@ -435,6 +435,8 @@ def witness_case():
 
 def describe(rep, case):
     rep.dist("class=" + cu.class_pair(case))
+    if case.get("weights_outside_the_table"):
+        rep.dist("weights-only-outside-the-table")
     sv = case["_sv"]
     rep.dist("weighted" if sv.weighted else "unweighted")
     if case.get("heavy"):
@@ -443,6 +445,27 @@ def describe(rep, case):
     if len(ap) == 3 and any(not rank_is_offset(case, k)
                             for k in range(len(cu.valid_positions(ap[0]["missing"])))):
         rep.dist("3d_missing_table_element_before_valid")
+
+
+def weights_outside_the_table(case, rng):
+    sv = case["survey"]
+    last = [v for v in sv["vars"] if v["alias"] == case["aliases"][-1]][0]
+    def outside(ans):
+        if last["kind"] == "mr":
+            return all(x == gen.MIS for x in ans)
+        els = last.get("cats") or last.get("elements") or []
+        return isinstance(ans, int) and 0 <= ans < len(els) and bool(els[ans].get("missing"))
+    out = [r for r in sv["resp"] if outside(r["ans"][last["alias"]])]
+    if not out or len(out) == len(sv["resp"]):
+        return False
+    for r in sv["resp"]:
+        r["w"] = "1"
+    for r in out:
+        r["w"] = rng.choice(["1/2", "1/4", "2", "3", "5/2"])
+    sv["weighted"] = True
+    case["weights_outside_the_table"] = True
+    cu.finish_case(case)
+    return True
 
 
 def run(tier, seed):
@@ -462,6 +485,15 @@ def run(tier, seed):
                            n_resp=rng.choice([0, 2, 6, 12, 20, 30]))
         case["heavy"] = heavy
         cases.append(case)
+    # WEIGHTS ONLY OUTSIDE THE TABLE (after seeded change C16-8: the cube decided "is weighted" by comparing
+    # the weighted with the unweighted counts on the VALID cells only, and built the baseline from
+    # unweighted counts otherwise): in one case out of seven every respondent with a valid answer on the
+    # last (columns) dimension weighs exactly 1 and the respondents WITHOUT one carry other weights -
+    # the counts, bases and proportions look unweighted, the baseline (all respondents of the row) is not
+    wrng = random.Random(seed * 31 + 5)
+    for case in cases[1:]:
+        if wrng.random() < 0.15:
+            weights_outside_the_table(case, wrng)
     ios, allterms, flat = [], [], []
     for case in cases:
         io, terms = build(case)
